@@ -283,37 +283,57 @@ def scenario_same_project(ctx, base, n=4, rounds=2):
 # ---------------------------------------------------------------------------------------------
 
 def std_signature(a, b):
-    """Is b's failure the known one?  b found the std directory present, never locked or wrote it,
-    read fewer library files than a wrote (or hit ENOENT on some), at a time when a — who created
-    the directory — had not yet released the std lock; and all of b's errors are unresolved
-    identifiers / missing files located in the shared std directory."""
+    """Is b's failure the recorded std::expand race (existence test outside the lock, library files
+    written in place)?  Facts, each taken from the order of events inside ONE process's own trace,
+    plus one sound timing veto:
+    (1) a expanded the library: inside its own lock … unlock of std/<hash>/lock it truncated and
+        wrote library files in place;
+    (2) b used the library without holding the std lock: either it found the directory present and
+        never locked or wrote std (variant "skipped"), or it expanded itself and read the files
+        after its own unlock while a — who had also passed the test — expanded again (variant
+        "both expanded");
+    (3) timing veto (sound inequalities only: an operation takes effect between its entry and its
+        completion as seen by strace; 0.5 s slack): some std access of b made after its test / own
+        unlock overlaps a's span [first std modification entered, unlock of std completed];
+    (4) all of b's errors are unresolved identifiers / errors located in the shared std directory;
+    (5) (checked by the caller) b succeeds when run again alone on the completed cache."""
     ea, eb = a.events, b.events
-    ta, tb = a.info["times"], b.info["times"]
+    a_in, a_out, b_in, b_out = a.info["entry"], a.info["times"], b.info["entry"], b.info["times"]
     facts = {}
-    facts["b_saw_dir_present"] = "ex:stdDir:0:0:1" in eb and not any(e == "ex:stdDir:0:0:0" for e in eb[:eb.index("ex:stdDir:0:0:1")])
-    facts["b_never_locked_std"] = "lk:std" not in eb and not any(e.startswith("tr:stdFile") for e in eb)
-    facts["a_expanded"] = "lk:std" in ea and "ul:std" in ea
-    wrote = len({e for e in ea if e.startswith("tr:stdFile")})
-    readb = len({e for e in eb if e.startswith("rd:stdFile")})
-    facts["a_wrote"], facts["b_read"] = wrote, readb
-    facts["b_read_fewer"] = readb < wrote or any(e.startswith("ex:stdFile") and e.endswith(":0") for e in eb)
-    if facts["a_expanded"] and facts["b_saw_dir_present"]:
-        t_test = tb[eb.index("ex:stdDir:0:0:1")]
-        t_mk = ta[ea.index("mk:stdDir:0:0")] if "mk:stdDir:0:0" in ea else None
-        t_ul = ta[ea.index("ul:std")]
-        facts["b_test_between_a_mkdir_and_unlock"] = t_mk is not None and t_mk <= t_test <= t_ul
-    else:
-        facts["b_test_between_a_mkdir_and_unlock"] = False
+    tests = [i for i, e in enumerate(eb) if e.startswith("ex:stdDir:0:0:")]
+    facts["b_saw_dir_present"] = bool(tests) and eb[tests[0]].endswith(":1")
+    facts["b_locked_std"] = "lk:std" in eb
+    facts["b_variant"] = ("skipped" if facts["b_saw_dir_present"] and not facts["b_locked_std"] and
+                          not any(e.startswith("tr:stdFile") for e in eb)
+                          else "both expanded" if facts["b_locked_std"] and "ul:std" in eb else None)
+    a_lk = ea.index("lk:std") if "lk:std" in ea else None
+    a_ul = ea.index("ul:std", a_lk) if a_lk is not None and "ul:std" in ea[a_lk:] else None
+    a_writes = [i for i, e in enumerate(ea) if e.startswith("tr:stdFile") and a_lk is not None and i > a_lk and (a_ul is None or i < a_ul)]
+    facts["a_expanded"] = bool(a_writes)
+    facts["a_wrote"] = len({ea[i] for i in a_writes})
+    facts["b_read"] = len({e for e in eb if e.startswith("rd:stdFile")})
+    facts["b_read_fewer_or_missing"] = facts["b_read"] < facts["a_wrote"] or any(e.startswith("ex:stdFile") and e.endswith(":0") for e in eb)
+    overlap = False
+    if facts["a_expanded"] and facts["b_variant"]:
+        start_b = eb.index("ul:std") if facts["b_variant"] == "both expanded" else tests[0]
+        acc = [(b_in[i], b_out[i]) for i in range(start_b, len(eb))
+               if eb[i].startswith(("rd:stdFile", "ex:stdFile", "ex:stdDir"))]
+        muts = [i for i, e in enumerate(ea) if e.startswith(("mk:stdDir", "tr:stdFile"))]
+        if facts["b_variant"] == "both expanded":
+            muts = a_writes
+        span0 = a_in[muts[0]] if muts else None
+        span1 = a_out[a_ul] if a_ul is not None else float("inf")
+        overlap = span0 is not None and any(t_in <= span1 + 0.5 and t_out + 0.5 >= span0 for t_in, t_out in acc)
+    facts["b_std_access_overlaps_a_expansion"] = overlap
     diags = proj.diagnostics(b.out, b.root)
     stdroot = f"{b.xdg}/veryl/std/"
     located = [d for d in diags if d[0] == "Error"]
     facts["b_errors"] = len(located)
     facts["b_errors_all_in_std_or_unresolved"] = bool(located) and all(
         (stdroot in d[3]) or d[1] in ("undefined_identifier", "unknown_member", "unresolvable_generic_argument") for d in located)
-    if not located:      # I/O error instead of diagnostics (file vanished between listing and read)
-        facts["b_errors_all_in_std_or_unresolved"] = stdroot in b.out or "std" in b.out
-    ok = all(facts[k] for k in ("b_saw_dir_present", "b_never_locked_std", "a_expanded", "b_read_fewer",
-                                "b_test_between_a_mkdir_and_unlock", "b_errors_all_in_std_or_unresolved"))
+    if not located:      # I/O or parse error instead of diagnostics (file vanished / truncated between listing and read)
+        facts["b_errors_all_in_std_or_unresolved"] = stdroot in b.out
+    ok = (facts["a_expanded"] and facts["b_variant"] is not None and overlap and facts["b_errors_all_in_std_or_unresolved"])
     return ok, facts
 
 
@@ -357,10 +377,12 @@ def std_trial(ctx, base, k, trial, files, opts, fref, lock, all_runs, summary):
             frozen = freeze(a)
         else:
             time.sleep(delay)
-        b = Run(f"t{k}b", [VERYL, "build"], roots[1], xdg, d).start()
-        b.wait()
-        if frozen:
-            thaw(a)
+        try:
+            b = Run(f"t{k}b", [VERYL, "build"], roots[1], xdg, d).start()
+            b.wait()
+        finally:
+            if frozen:
+                thaw(a)
         a.wait()
         rc_ref, ref, _ = fref.result()
         word_of(a)
@@ -440,38 +462,67 @@ def dep_project(root, name, dep):
 
 
 def resolve_signature(a, b):
-    """b failed because, after its own unlock of `resolve`, it read a file of the shared
-    resolve checkout (Veryl.toml / Veryl.pub) which a — holding the resolve lock, inside
-    `checkout` — had truncated and not yet rewritten."""
+    """Is b's failure the recorded read-after-unlock race?  Decided from facts that do not depend
+    on the observer winning a race:
+    (1) in b's own trace, b reads Veryl.toml / Veryl.pub of the shared resolve checkout AFTER its own
+        unlock of resolve/lock (order of events within one trace);
+    (2) in a's own trace, a opens one of those same files with O_TRUNC between its lock and its
+        unlock of resolve/lock (again order within one trace) — the in-place rewrite by `checkout`;
+    (3) b's error is ProjectNotFound / VersionNotFound / an unreadable Veryl.pub;
+    (4) the timestamps do not contradict an overlap.  Only sound inequalities are used: a syscall
+        takes effect between its entry and its completion as seen by strace, so the read cannot
+        have seen the truncated file if it completed before the truncating open was even entered,
+        or was entered after the rewrite had completed (0.5 s slack for clock granularity);
+    (5) (checked by the caller) b succeeds when run again alone."""
     import re
-    ea, eb, ta, tb = a.events, b.events, a.info["times"], b.info["times"]
+    ea, eb = a.events, b.events
     la, lb = a.info["lines"], b.info["lines"]
-    facts = {"b_reads_after_unlock": 0, "b_read_in_a_truncate_window": []}
+    a_in, a_out, b_in, b_out = a.info["entry"], a.info["times"], b.info["entry"], b.info["times"]
+    facts = {"b_reads_after_own_unlock": [], "a_truncated_inside_its_lock": [], "files_in_common": [], "timing_contradicts": None}
 
     def path_of(line):
         m = re.search(r'"(/[^"]*/resolve/[^"]*)"', line) or re.search(r"<(/[^>]*/resolve/[^>]*)>", line)
-        return m.group(1) if m else None
+        p = m.group(1) if m else None
+        return p if p and os.path.basename(p) in ("Veryl.toml", "Veryl.pub") else None
+    reads = []         # (path, entry, done)
     if "ul:resolve" in eb:
         i_ul = eb.index("ul:resolve")
-        windows = {}      # path -> list of [t_trunc, t_written]
-        for i, e in enumerate(ea):
-            if e.startswith("tr:resFile"):
+        for i in range(i_ul + 1, len(eb)):
+            if eb[i].startswith(("rd:resFile", "ex:resFile")) and lb[i].startswith(("openat(", "open(")):
+                p = path_of(lb[i])
+                if p:
+                    reads.append((p, b_in[i], b_out[i]))
+    windows = []       # (path, trunc entry, rewrite done or None)
+    if "lk:resolve" in ea:
+        i_lk = ea.index("lk:resolve")
+        i_ul = ea.index("ul:resolve", i_lk) if "ul:resolve" in ea[i_lk:] else len(ea)
+        for i in range(i_lk + 1, i_ul):
+            if ea[i].startswith("tr:resFile"):
                 p = path_of(la[i])
                 if p is None:
                     continue
                 if la[i].startswith(("openat(", "open(", "creat(")) and "O_TRUNC" in la[i]:
-                    windows.setdefault(p, []).append([ta[i], None])
-                elif la[i].startswith("write(") and windows.get(p) and windows[p][-1][1] is None:
-                    windows[p][-1][1] = ta[i]
-        for i in range(i_ul + 1, len(eb)):
-            if eb[i].startswith("rd:resFile"):
-                facts["b_reads_after_unlock"] += 1
-                p = path_of(lb[i])
-                for t0, t1 in windows.get(p, []):
-                    if t0 <= tb[i] + 0.002 and (t1 is None or tb[i] <= t1 + 0.002):
-                        facts["b_read_in_a_truncate_window"].append({"file": os.path.basename(p), "read": tb[i], "truncated": t0, "rewritten": t1})
+                    windows.append([p, a_in[i], None])
+                elif la[i].startswith(("write(", "pwrite64(", "writev(")):
+                    for w in reversed(windows):
+                        if w[0] == p and w[2] is None:
+                            w[2] = a_out[i]
+                            break
+    facts["b_reads_after_own_unlock"] = sorted({os.path.basename(p) for p, _, _ in reads})
+    facts["a_truncated_inside_its_lock"] = sorted({os.path.basename(w[0]) for w in windows})
+    common = sorted({p for p, _, _ in reads} & {w[0] for w in windows})
+    facts["files_in_common"] = [os.path.basename(p) for p in common]
+    possible = False
+    for p, r_in, r_out in reads:
+        for q, t_in, w_out in windows:
+            if p == q and t_in <= r_out + 0.5 and (w_out is None or r_in <= w_out + 0.5):
+                possible = True
+    facts["timing_contradicts"] = bool(common) and not possible
+    low = b.out.lower()
     facts["b_error"] = next((w for w in ("ProjectNotFound", "VersionNotFound", "UnpublishedDependency", "TomlDe", "Toml") if w in b.out), None)
-    ok = bool(facts["b_read_in_a_truncate_window"]) and facts["b_error"] is not None
+    if facts["b_error"] is None and "is not found" in low:
+        facts["b_error"] = "is not found"
+    ok = bool(common) and possible and facts["b_error"] is not None
     return ok, facts
 
 
@@ -517,12 +568,16 @@ def scenario_shared_deps(ctx, base, trials):
             # a stops itself right after unlocking `resolve` (injected SIGSTOP at its 3rd flock call); b then gets
             # the lock, and as soon as its checkout has truncated Veryl.toml or Veryl.pub (its write is delayed to
             # give the check time to see that) b is stopped, a continued: a now reads the truncated file.
-            m = wait_trace(b, r'/Veryl\.(toml|pub)", O_WRONLY\|O_CREAT\|O_TRUNC', timeout=60)
-            if m:
-                steered = freeze(b)
-            thaw(a)
-            a.wait()
-            thaw(b)
+            try:
+                m = wait_trace(b, r'/Veryl\.(toml|pub)", O_WRONLY\|O_CREAT\|O_TRUNC', timeout=120)
+                if m:
+                    steered = freeze(b)
+            finally:
+                thaw(a)
+            try:
+                a.wait()
+            finally:
+                thaw(b)
         if a.p.returncode is None:
             a.wait()
         b.wait()
@@ -539,8 +594,11 @@ def scenario_shared_deps(ctx, base, trials):
                                   {"kind": "impl!=oracle", "trial": rec, "diff": diff})
                 continue
             ok, facts = resolve_signature(other, r)
+            # alone, on the same (now quiescent) cache, the same command succeeds
+            rc2, out2 = proj.run_veryl(r.root, ["build"], xdg, extra_env=GIT_ENV)
+            facts["rerun_alone_rc"] = rc2
+            ok = ok and rc2 == rc_ref
             rec[f"signature_{r.tag}"] = facts
-            last = r.out.strip().splitlines()
             ctx.violation(f"shared-dependency trial {k}: {r.tag} exited {r.rc} (alone: {rc_ref}) while {other.tag} resolved the same "
                           f"dependency in the shared cache (signature verified: {ok}): {facts.get('b_error')}",
                           {"kind": "impl!=oracle", "trial": rec, "facts": facts, "output_tail": r.out[-1500:],
@@ -812,7 +870,7 @@ def run(ctx):
         with ThreadPoolExecutor(max_workers=4) as ex:
             fa = ex.submit(scenario_same_project, ctx, base, 4, tier_n(ctx, 2, 5))
             fb = ex.submit(scenario_shared_std, ctx, base, std_trials)
-            fc = ex.submit(scenario_ls, ctx, base, tier_n(ctx, 60, 120))
+            fc = ex.submit(scenario_ls, ctx, base, tier_n(ctx, 150, 240))
             fd = ex.submit(scenario_shared_deps, ctx, base, dep_trials)
             same_runs = fa.result()
             std_summary = fb.result()
